@@ -46,3 +46,5 @@ let bytes_of_hex (s : string) : z list =
   if s = "-" then [] else
   List.init (String.length s / 2) (fun i -> z_of_int (int_of_string ("0x" ^ String.sub s (2 * i) 2)))
 
+
+let int_of_z (v : z) : int = match v with Z0 -> 0 | Zneg _ -> -1 | Zpos _ -> int_of_string ("0x" ^ hex_of_z v)
